@@ -108,3 +108,37 @@ theorem C13_weak_duality (E N : Mat ℝ d d) (B : Matrix (Fin d) (Fin d) ℝ) (l
   unfold sdmlObjective
   rw [h3] at h1
   linarith
+/-- **the duality gap bounds the sub-optimality.**  Let `M ≻ 0` with inverse `W`, and let `W` be dual
+feasible (`|E − W| ≤ λ` off the diagonal, equal on it).  Then for every symmetric `N ≻ 0`
+`f(M) − f(N) ≤ gap(M)`, where `f` is the documented objective and `gap` what the correspondence check
+evaluates on the learned matrix; in particular a vanishing gap certifies that `M` is a minimiser. -/
+theorem C13_suboptimality_le_gap (E M N : Mat ℝ d d) (W : Matrix (Fin d) (Fin d) ℝ) (lam : ℝ)
+    (hM : (Matrix.of M).PosDef) (hMW : Matrix.of M * W = 1)
+    (hN : (Matrix.of N).PosDef) (hNs : ∀ a b, N a b = N b a)
+    (hoff : ∀ a b, a ≠ b → |E a b - W a b| ≤ lam) (hdiag : ∀ a, E a a = W a a) :
+    sdmlObjective E M (Real.log (Matrix.of M).det) lam - sdmlObjective E N (Real.log (Matrix.of N).det) lam
+      ≤ sdmlGap E M lam := by
+  have hWinv : (Matrix.of M)⁻¹ = W := Matrix.inv_eq_right_inv hMW
+  have hWpd : W.PosDef := hWinv ▸ hM.inv
+  have hdet : (Matrix.of M).det * W.det = 1 := by rw [← Matrix.det_mul, hMW, Matrix.det_one]
+  have hlogW : Real.log W.det = - Real.log (Matrix.of M).det := by
+    have hd := hM.det_pos
+    have : W.det = ((Matrix.of M).det)⁻¹ := by field_simp; linarith [hdet]
+    rw [this, Real.log_inv]
+  have h1 := C13_dual_bound E (fun a b => W a b) N lam hoff hdiag
+  have h2 := log_det_pd_le W (Matrix.of N) hWpd hN
+  have h3 : frob (fun a b => W a b) N = (W * Matrix.of N).trace := by
+    rw [frob_eq_trace _ N hNs]; rfl
+  rw [h3] at h1
+  rw [C13_gap_form E M (Real.log (Matrix.of M).det) lam]
+  unfold sdmlObjective at *
+  linarith
+
+theorem C13_zero_gap_optimal (E M N : Mat ℝ d d) (W : Matrix (Fin d) (Fin d) ℝ) (lam : ℝ)
+    (hM : (Matrix.of M).PosDef) (hMW : Matrix.of M * W = 1)
+    (hN : (Matrix.of N).PosDef) (hNs : ∀ a b, N a b = N b a)
+    (hoff : ∀ a b, a ≠ b → |E a b - W a b| ≤ lam) (hdiag : ∀ a, E a a = W a a)
+    (hgap : sdmlGap E M lam ≤ 0) :
+    sdmlObjective E M (Real.log (Matrix.of M).det) lam ≤ sdmlObjective E N (Real.log (Matrix.of N).det) lam := by
+  have := C13_suboptimality_le_gap E M N W lam hM hMW hN hNs hoff hdiag
+  linarith
